@@ -400,7 +400,9 @@ class Collection:
         if not name:
             if not self.default:
                 raise ValueError("This collection has no default task.")
-            return self[self.default], ours
+            # NOTE: recurse so that a default *sub-collection*'s own settings
+            # are merged in, exactly as when it is named explicitly.
+            return self.task_with_config(self.default)
         # Normalize name to the format we're expecting
         name = self.transform(name)
         # Non-default tasks within subcollections -> recurse (sorta)
